@@ -11,7 +11,7 @@ LEVEL = "fault_enumeration"
 RULE = (
     "A well-formed generated spec + one structural fault (thorough: also pairs) from the catalogue F1 "
     "duplicate channel, F2 duplicate sample, F3 duplicated (name,type) modifier with different data, F4 "
-    "sample length, F5 modifier data length, F6 bin-wise modifier shared across different widths / "
+    "sample length, F5 modifier data length (F5c: a compensating long/short pair across channels), F6 bin-wise modifier shared across different widths / "
     "staterror across channels on different samples / shapesys reuse, F7 one name with conflicting "
     "constraint types, F8 override of the wrong length, F9 undefined or multi-component POI, F10 lumi "
     "without (complete) settings, at a generated position; plus exhaustive enumeration of every (fault x "
@@ -25,7 +25,7 @@ ASSUMPTIONS = [
     "gamma per bin) and is not injected as a fault",
     "an identical duplicate of a data-less modifier is not a fault ('with different data')",
 ]
-FAULTS = ["F1", "F2", "F3", "F4", "F5", "F6a", "F6b", "F6c", "F7", "F8", "F9", "F10"]
+FAULTS = ["F1", "F2", "F3", "F4", "F5", "F5c", "F6a", "F6b", "F6c", "F7", "F8", "F9", "F10"]
 EXHAUSTIVE = False
 
 
@@ -174,6 +174,36 @@ def apply_fault(spec, fault, pick):
         else:
             return None
         return None, {"fault": "F5", "variant": f"{m['type']}_{'long' if grow else 'short'}", "later": later}
+    if fault == "F5c":
+        # two cooperating length faults: one histosys (same sample name, same modifier name) is one bin too
+        # long in one channel and one bin too short in another, so that the totals over all channels agree
+        byname = {}
+        for cj, chj in enumerate(chans):
+            for sj, sm in enumerate(chj["samples"]):
+                byname.setdefault(sm["name"], []).append((cj, sj))
+        multi = sorted(n for n, v in byname.items() if len({cj for cj, _ in v}) >= 2)
+        if not multi:
+            return None
+        sname = multi[a % len(multi)]
+        places = byname[sname]
+        (c1, s1), (c2, s2) = places[b % len(places)], places[(b + 1 + c % (len(places) - 1)) % len(places)]
+        if c1 == c2 or nb[c2] < 2:
+            (c1, s1), (c2, s2) = (c2, s2), (c1, s1)
+        if c1 == c2 or nb[c2] < 2:
+            return None
+        key = ["hi_data", "lo_data"][d % 2]
+        for (cj, sj), delta in (((c1, s1), +1), ((c2, s2), -1)):
+            sm = chans[cj]["samples"][sj]
+            sm["modifiers"] = [m for m in sm["modifiers"] if not (m["type"] == "histosys" and m["name"] == "hsys_comp")]
+            lo_d = [v * 0.9 for v in sm["data"]]
+            hi_d = [v * 1.1 for v in sm["data"]]
+            tgt = hi_d if key == "hi_data" else lo_d
+            if delta > 0:
+                tgt.append(999.0)
+            else:
+                tgt.pop()
+            sm["modifiers"].append({"name": "hsys_comp", "type": "histosys", "data": {"lo_data": lo_d, "hi_data": hi_d}})
+        return None, {"fault": "F5c", "variant": f"histosys_{key}_compensating_across_channels", "later": True}
     if fault == "F6a":
         # shapefactor shared between channels of different width
         others = [j for j in range(len(chans)) if nb[j] != nb[ci]]
